@@ -33,8 +33,6 @@ json.dump(man, open(os.path.join(V, 'MANIFEST.json'), 'w'), indent=1)
 kf = {"_doc": "Genuine defects of the pinned nfcpy tree. 'findings' (still open) are reported as KNOWN-FINDING (exit 0) when a check re-finds exactly that input class / call site: 'key' is a regex matched against the key the check computes for a concrete failure. 'fixed' entries suppress nothing. Assembled from findings/*.json by tools/mkmanifest.py.",
       "findings": [], "fixed": []}
 for f in sorted(glob.glob(os.path.join(V, 'findings', 'C*.json'))):
-    if os.path.basename(f)[:3] not in integrated:
-        continue
     d = json.load(open(f))
     kf['findings'] += d.get('findings', [])
     kf['fixed'] += d.get('fixed', [])
